@@ -1150,10 +1150,10 @@ func callBuiltin(caller *frame, callpos token.Pos, fn *ssa.Builtin, args []value
 	panic("unknown built-in: " + fn.Name())
 }
 
-func rangeIter(x value, t types.Type) iter {
+func rangeIter(ex *Exec, x value, t types.Type) iter {
 	switch x := x.(type) {
 	case *hashmap:
-		return &hashmapIter{ents: mapOrder(x)}
+		return &hashmapIter{ents: ex.mapOrder(x)}
 	case string:
 		return &stringIter{Reader: strings.NewReader(x)}
 	case symstr:
